@@ -275,7 +275,7 @@ LADDER = (1.0 / 64, 1.0 / 16, 1.0 / 4, 1.0 / 2, 1.0)
 CALL_STYLES = ('plain', 'strided-guess', 'readonly-guess', 'result-x-as-guess', 'shared-options', 'default-method', 'resolve-same-object')
 
 
-def solve_ladder(spec, ladder=LADDER, fatol=None, maxiter=60, perturb=None, reuse_system=False, call='plain'):
+def solve_ladder(spec, ladder=LADDER, fatol=None, maxiter=60, perturb=None, reuse_system=False, call='plain', on_system=None):
     """density continuation; yields (scale, prism, result) for every rung (result.success may be False).
     reuse_system: one System object is built once and only its densities are edited from rung to rung (a parameter sweep)
     call: the way solve() is called (all documented / equivalent):
@@ -300,6 +300,8 @@ def solve_ladder(spec, ladder=LADDER, fatol=None, maxiter=60, perturb=None, reus
             s = shared
         else:
             s = build_system(spec, f)
+        if on_system is not None:
+            on_system(s)
         pr = quiet(s.createPRISM)
         n = len(spec['types']) ** 2 * spec['domain']['length']
         g = np.zeros(n) if guess is None else guess
